@@ -305,7 +305,7 @@ class SymInt:
         return str(self.concretize())
 
     def __format__(self, spec):
-        return '<sym>'
+        return format(self.concretize(), spec)
 
 
 class SymProd(SymInt):
